@@ -321,6 +321,20 @@ def _is_step(e, d):
     return isinstance(e, dict) and e.get("k") == "Un" and e.get("op") == "++" and isinstance(_strip(e.get("e")), dict) and _strip(e["e"]).get("k") == "Ref" and _strip(e["e"]).get("d") == d
 
 
+def _writes(n, d):
+    hit = [False]
+
+    def v(x):
+        if x.get("k") == "Assign" and isinstance(_strip(x.get("l")), dict) and _strip(x["l"]).get("k") == "Ref" and _strip(x["l"]).get("d") == d:
+            hit[0] = True
+        if x.get("k") in ("Un", "OpCall") and x.get("op") in ("++", "--"):
+            t = _strip(x.get("e") if x.get("k") == "Un" else (x.get("args") or [None])[0])
+            if isinstance(t, dict) and t.get("k") == "Ref" and t.get("d") == d:
+                hit[0] = True
+    _walk(n, v)
+    return hit[0]
+
+
 def _step_to_inc(f):
     """S7a: a loop without init / increment whose body ends with `++x` for a local x of its condition, and has no `continue`:
     the step becomes the loop increment (`while (c) { B; ++x; }` == `for (; c; ++x) { B }`)"""
@@ -331,15 +345,15 @@ def _step_to_inc(f):
         return f
     last = _strip(_incdec(body[-1].get("e")))
     tgt = None
-    if isinstance(last, dict) and last.get("k") == "Un" and last.get("op") == "++":
+    if isinstance(last, dict) and last.get("k") == "Un" and last.get("op") in ("++", "--"):
         tgt = _strip(last.get("e"))
-    elif isinstance(last, dict) and last.get("k") == "OpCall" and last.get("op") == "++" and last.get("args"):
+    elif isinstance(last, dict) and last.get("k") == "OpCall" and last.get("op") in ("++", "--") and last.get("args"):
         tgt = _strip(last["args"][0])
     if not (isinstance(tgt, dict) and tgt.get("k") == "Ref" and tgt.get("dk") == "local" and _refs_to(f["c"], tgt.get("d"))):
         return f
     conts = []
     _walk(f.get("b"), lambda x: conts.append(x) if x.get("k") == "Continue" else None)
-    if conts or any(_is_step(b.get("e"), tgt["d"]) for b in body[:-1] if isinstance(b, dict) and b.get("k") == "Expr"):
+    if conts or any(_refs_to(b, tgt["d"]) and _writes(b, tgt["d"]) for b in body[:-1] if isinstance(b, dict)):
         return f
     g = dict(f)
     g["inc"] = _incdec(body[-1]["e"])
